@@ -299,6 +299,56 @@ func passEdges(fn *ssa.Function, g Guard) map[edge]bool {
 			}
 		}
 	}
+	// a named boolean: `ok := a || b; if ok {` is a phi whose edges are the constant true (entered over the
+	// edge on which a held) and the value b. The true edge of the test passes the guard when every way of
+	// the phi being true does: each true constant comes in over a pass edge, each other value establishes the
+	// guard by being true.
+	for round := 0; round < 2; round++ {
+		for _, b := range fn.Blocks {
+			if len(b.Instrs) == 0 {
+				continue
+			}
+			ifi, ok := b.Instrs[len(b.Instrs)-1].(*ssa.If)
+			if !ok || out[edge{b.Index, 0}] {
+				continue
+			}
+			ph, ok := ifi.Cond.(*ssa.Phi)
+			if !ok || !isBool(ph.Type()) {
+				continue
+			}
+			all := len(ph.Edges) > 0
+			for i, e := range ph.Edges {
+				if k, isK := boolConst(e); isK {
+					if !k {
+						continue
+					}
+					pb := ph.Block().Preds[i]
+					passes := false
+					for si, s := range pb.Succs {
+						if s == ph.Block() && out[edge{pb.Index, si}] {
+							passes = true
+						}
+					}
+					if !passes {
+						all = false
+					}
+					continue
+				}
+				est := false
+				for _, f := range factsOf(e, true) {
+					if g.Match(f) {
+						est = true
+					}
+				}
+				if !est {
+					all = false
+				}
+			}
+			if all {
+				out[edge{b.Index, 0}] = true
+			}
+		}
+	}
 	return out
 }
 
@@ -1178,4 +1228,48 @@ func (p *Prog) sentinelError(g *ssa.Global) bool {
 		}
 	}
 	return p.sentinels[g]
+}
+
+// trueReturnMissing: which of the guards can be missing when return r hands back true in result #idx?
+// Edge-precise for a result that is a merged boolean (`return a && b && !c` is a phi of false constants
+// and the last test): a leaf that is the constant false cannot make the result true, a leaf that is a
+// test establishes its own facts by being true, and every other guard has to hold on the way into the leaf.
+func (p *Prog) trueReturnMissing(fn *ssa.Function, r *ssa.Return, idx int, guards ...Guard) (missing []string, path []string) {
+	v := retVal(r, idx)
+	if _, isPhi := v.(*ssa.Phi); !isPhi {
+		// a plain value: its own truth may establish some guards, the rest must hold on the way to the return
+		var rest []Guard
+		for _, g := range guards {
+			own := false
+			for _, f := range factsOf(v, true) {
+				if g.Match(f) {
+					own = true
+				}
+			}
+			if !own {
+				rest = append(rest, g)
+			}
+		}
+		return p.unguardedFromEntry(fn, r, rest...)
+	}
+	for _, lf := range phiLeaves2(v, r.Block(), nil, map[*ssa.Phi]bool{}) {
+		if b, ok := boolConst(lf.V); ok && !b {
+			continue
+		}
+		for _, g := range guards {
+			own := false
+			for _, f := range factsOf(lf.V, true) {
+				if g.Match(f) {
+					own = true
+				}
+			}
+			if own {
+				continue
+			}
+			if leafUnguarded(fn, lf, g) {
+				missing = append(missing, g.Name)
+			}
+		}
+	}
+	return missing, nil
 }
